@@ -198,7 +198,7 @@ def check_property(prop, tier, seed):
     for ln in violation_lines:
         print(ln)
     n_ob = len(c['obligations'])
-    n_known = len(set(o.id for o, _, _ in c['known']))
+    n_known = len(set(o.id for o, _, _ in c['known'])) + len(set(k.get('what') for _, _, k in driver_known))
     print(f'property={prop} tier={tier} units={",".join(units)} obligations={n_ob} discharged={len(c["discharged"])} '
           f'known_findings={n_known} violations={len(violation_lines)} undecided={len(c["undecided"])} wall_s={wall:.1f}')
     if violation_lines:
